@@ -598,8 +598,16 @@ func (g *heapGen) args(h *heapRun, op string, recv int, o *obj) *Step {
 		switch g.rng.Intn(4) {
 		case 0: // codon-like modulo partition
 			m := 2 + g.rng.Intn(2)
+			far := -1 // one time in four one stepped interval declares an end past the alignment (must be refused)
+			if g.rng.Intn(4) == 0 {
+				far = g.rng.Intn(m)
+			}
 			for p := 0; p < m; p++ {
-				rs = append(rs, map[string]interface{}{"p": f64(p), "s": f64(p), "e": f64(pl - 1), "m": f64(m)})
+				e := pl - 1
+				if p == far {
+					e = pl + g.rng.Intn(2)
+				}
+				rs = append(rs, map[string]interface{}{"p": f64(p), "s": f64(p), "e": f64(e), "m": f64(m)})
 			}
 		case 1: // two blocks
 			cut := g.rng.Intn(pl)
